@@ -1,6 +1,7 @@
 (* C05 driver.
      compose <rtype> <field>...        -> Reject | <wire> <rdlen> <rdlen_compress> <canonical>
      parse <rtype> <msg> <pos> <lim>   -> Ok <field>... | Err short | Err form | Panic
+     equnk <t1> <octets> <t2> <octets> -> all=<bool> zone=<bool>   (== inside AllRecordData / ZoneRecordData)
    Field tokens: numbers in decimal; octets in hex (`-` = empty); names as the
    hex of their uncompressed wire form (root = 00); a TXT sequence as
    [s1,s2,...] with each s in hex (`-` = empty string, [] = no strings). *)
@@ -67,5 +68,9 @@ let handle = function
        | Some (Err e) -> if int_of_n e = 1 then "Err short" else "Err form"
        | Some (Panic _) -> "Panic"
        | Some OutOfFuel -> "OutOfFuel")
+  | ["equnk"; t1; b1; t2; b2] ->
+      let (a, z) = c05_eq_unknown (n_of_int (int_of_string t1)) (bytes_of_hex b1)
+                                  (n_of_int (int_of_string t2)) (bytes_of_hex b2) in
+      Printf.sprintf "all=%b zone=%b" a z
   | _ -> failwith "bad case line"
 let () = main handle
